@@ -28,6 +28,10 @@ pub struct Case {
     /// 0 drain all every frame, 1 never, 2 partial
     pub drain: u8,
     pub start_t: u32,
+    /// before this frame the host re-asserts its current settings (set_ay_enabled, set_sound,
+    /// set_fast_load with the values already in force): a no-op for the sound the program makes
+    #[serde(default)]
+    pub reassert_settings_before_frame: Option<u8>,
 }
 
 const BASE: u16 = 0x8000;
@@ -136,6 +140,12 @@ pub fn check(c: &Case, rec: &mut Rec) -> Result<(), String> {
     let mut total: u64 = 0;
     let mut x = c.start_t as u64 | 1;
     for f in 0..frames {
+        if c.reassert_settings_before_frame.map(|k| k as u64 % frames) == Some(f) {
+            e.set_ay_enabled(c.ay);
+            e.set_sound(true);
+            e.set_fast_load(false);
+            rec.class("settings-re-asserted-mid-run");
+        }
         mach::run_frames(&mut e, 1)?;
         match c.drain % 3 {
             0 => {
@@ -283,7 +293,10 @@ pub fn case_strategy() -> impl Strategy<Value = Case> {
         prop_oneof![3 => Just(0u8), 1 => Just(1), 1 => Just(2)],
         any::<u32>(),
     )
-        .prop_map(|(machine, rate, volume, beeper, ay, segs, idle_units, frames, drain, start_t)| Case { machine, rate, volume, beeper, ay, segs, idle_units, frames, drain, start_t })
+        .prop_map(|(machine, rate, volume, beeper, ay, segs, idle_units, frames, drain, start_t)| {
+            let reassert_settings_before_frame = if start_t % 3 == 0 { Some((start_t >> 8) as u8) } else { None };
+            Case { machine, rate, volume, beeper, ay, segs, idle_units, frames, drain, start_t, reassert_settings_before_frame }
+        })
 }
 
 pub fn run(run: &mut Run) {
@@ -299,7 +312,7 @@ pub fn replay(run: &mut Run, phase: &str, case: &serde_json::Value) -> Result<()
 }
 
 pub const LEVEL: &str = "exploration";
-pub const RULE: &str = "case = machine x sample rate 8000..384000 (biased to 8000, 11025, 44100, 48000, 384000 and rates not divisible by 50) x volume 0..100 x beeper/AY enables x looping DI program of 0..30 (delay, OUT (0xFE),A with any value) segments incl. bursts faster than one sample and frames without any write x 1..6 frames x drain behaviour {all, never, part}. Drain-all: the cumulative number of samples after f frames must be f*floor(rate/50) (plus at most the samples that fall into the T-states by which the frame-crossing instruction overshoots the boundary, +1); with only the beeper on, every sample must equal the level of a speaker/MIC state that was current within one sample period of its frame time k*T_frame/floor(rate/50) — the states and their times come from the reference machine's ULA write log, the four levels from calibration runs at the same settings; levels monotone in EAR then MIC, left = right, level at volume v = level at volume 100 * v/100, volume 0 exactly silent, everything finite. Never/partial drain: the queue stays below two frames' worth. non-trivial = judged run with >= 2 speaker writes at least two samples apart at a rate other than 44100 (or any never/partial-drain run); distinct = hash of the case";
+pub const RULE: &str = "case = machine x sample rate 8000..384000 (biased to 8000, 11025, 44100, 48000, 384000 and rates not divisible by 50) x volume 0..100 x beeper/AY enables x looping DI program of 0..30 (delay, OUT (0xFE),A with any value) segments incl. bursts faster than one sample and frames without any write x 1..6 frames x drain behaviour {all, never, part}; in a third of the cases the host re-asserts its current settings (set_ay_enabled / set_sound / set_fast_load with the values in force) before one of the frames, which must not change the sound. Drain-all: the cumulative number of samples after f frames must be f*floor(rate/50) (plus at most the samples that fall into the T-states by which the frame-crossing instruction overshoots the boundary, +1); with only the beeper on, every sample must equal the level of a speaker/MIC state that was current within one sample period of its frame time k*T_frame/floor(rate/50) — the states and their times come from the reference machine's ULA write log, the four levels from calibration runs at the same settings; levels monotone in EAR then MIC, left = right, level at volume v = level at volume 100 * v/100, volume 0 exactly silent, everything finite. Never/partial drain: the queue stays below two frames' worth. non-trivial = judged run with >= 2 speaker writes at least two samples apart at a rate other than 44100 (or any never/partial-drain run); distinct = hash of the case";
 pub const ASSUMPTIONS: &[&str] = &[
     "write timestamps from the reference machine (trusted through calibration, C03, C04)",
     "the absolute level constants are not assumed: they are measured on a calibration machine with the same settings",
